@@ -140,10 +140,18 @@ CHECKS = {
             "run (multisets, per-writer order, audit, check()); one real multiprocessing.Pool run anchors the stub.",
             "Pool.imap contract; uuid4 distinctness; disjoint footprints imply schedule independence; <=3 writers",
             "DESIGN.md 3/C09"),
+    "C01": ("symnp+z3",
+            "the real FlatBuffers element kernel executed on a bit-vector model of numpy: one z3 query per (declared dtype, input dtype, byte order, layout, shape) cell over ALL bit patterns; concrete end-to-end sweep for npz/codecs/readers",
+            "fb: for every cell decoded element == exact conversion of the written element, declared shape/order, declared little-"
+            "endian dtype, unsupported inputs rejected at write time - for all 2^(8*itemsize*n) bit patterns at once. npz/tfrec and "
+            "everything executed inside numpy/codecs is covered by a stated concrete sweep (dtypes x presentations x value classes "
+            "x readers, incl. callers overwriting their buffers).",
+            "symnp shim (grounded by the sweep); codecs/containers are exact; <=12 elements per array; tfrec and Rust reader in thorough",
+            "DESIGN.md 3/C01"),
 }
 
 PENDING_REASON = "check not built yet in this round (work in progress; see DESIGN.md section 3 for the planned encoding)"
-NOT_APPLICABLE = {}
+NOT_APPLICABLE = {}  # filled below when a property is not claimed
 
 
 def main():
